@@ -230,6 +230,13 @@ func (l *listener) readLoop() {
 
 			return
 		}
+		if n == 0 {
+			// A zero-length datagram is no DTLS record. Stored, it would
+			// make the connection's packet buffer report io.EOF for this
+			// and every later read: anybody able to send one from (or in
+			// the name of) the peer's address would end the connection.
+			continue
+		}
 		conn, ok, err := l.getConn(raddr, buf[:n])
 		if err != nil {
 			continue
